@@ -12,6 +12,9 @@
 //	VHOOK_JITTER=<seed>    Ready sleeps / yields pseudo-randomly (a function of seed, site, idx)
 //	VHOOK_GATE=<site>:<i,j,k,...>   impose a delivery order: Ready(<site>, x) returns only when every
 //	                       index listed before x has been seen by Recv (any site); gives up after VHOOK_GATE_MS
+//	VHOOK_GATES=<site>:<i,j,...>:<release site>;...   several gates (one per worker stage): an index passes the gate
+//	                       at <site> when every index listed before it has arrived at <release site> (entered
+//	                       Ready there, or been seen by Recv there)
 package vhook
 
 import (
@@ -42,6 +45,14 @@ type Config struct {
 	GateOrder []int
 	GateRecv  string // Recv site whose deliveries release the gate ("" = any)
 	GateWait  time.Duration
+	Gates     []Gate // further gates (two-stage pipelines: one per stage)
+}
+
+// Gate makes Ready(Site, x) wait until every index before x in Order has arrived at the Release site.
+type Gate struct {
+	Site    string
+	Order   []int
+	Release string
 }
 
 var (
@@ -57,6 +68,7 @@ var (
 	unrealised int
 	gatePos    map[int]int
 	traceOut   *os.File
+	arrived    map[string]map[int]bool
 )
 
 // Configure (re)initialises the hooks; the harness calls it before every run.
@@ -79,6 +91,7 @@ func configureLocked(c Config) {
 	for p, i := range c.GateOrder {
 		gatePos[i] = p
 	}
+	arrived = map[string]map[int]bool{}
 	if cfg.GateWait == 0 {
 		cfg.GateWait = 3 * time.Second
 	}
@@ -112,6 +125,21 @@ func fromEnv() {
 		}
 	}
 	c.GateRecv = os.Getenv("VHOOK_GATE_RECV")
+	if gs := os.Getenv("VHOOK_GATES"); gs != "" {
+		for _, g := range strings.Split(gs, ";") {
+			parts := strings.Split(g, ":")
+			if len(parts) != 3 {
+				continue
+			}
+			gate := Gate{Site: parts[0], Release: parts[2]}
+			for _, x := range strings.Split(parts[1], ",") {
+				if v, err := strconv.Atoi(strings.TrimSpace(x)); err == nil {
+					gate.Order = append(gate.Order, v)
+				}
+			}
+			c.Gates = append(c.Gates, gate)
+		}
+	}
 	if s := os.Getenv("VHOOK_GATE_MS"); s != "" {
 		if v, err := strconv.Atoi(s); err == nil {
 			c.GateWait = time.Duration(v) * time.Millisecond
@@ -138,6 +166,31 @@ func Ready(site string, idx int) {
 		fromEnv()
 	}
 	jitter := cfg.Jitter
+	markArrived(site, idx)
+	for _, g := range cfg.Gates {
+		if g.Site != site {
+			continue
+		}
+		pos := -1
+		for p, x := range g.Order {
+			if x == idx {
+				pos = p
+			}
+		}
+		if pos < 0 {
+			continue
+		}
+		deadline := time.Now().Add(cfg.GateWait)
+		timer := time.AfterFunc(cfg.GateWait, func() { mu.Lock(); cond.Broadcast(); mu.Unlock() })
+		for !allArrived(g, pos) {
+			if time.Now().After(deadline) {
+				unrealised++
+				break
+			}
+			cond.Wait()
+		}
+		timer.Stop()
+	}
 	if cfg.GateSite == site {
 		if pos, ok := gatePos[idx]; ok {
 			deadline := time.Now().Add(cfg.GateWait)
@@ -167,6 +220,25 @@ func Ready(site string, idx int) {
 	}
 }
 
+func markArrived(site string, idx int) {
+	m, ok := arrived[site]
+	if !ok {
+		m = map[int]bool{}
+		arrived[site] = m
+	}
+	m[idx] = true
+	cond.Broadcast()
+}
+
+func allArrived(g Gate, pos int) bool {
+	for p := 0; p < pos; p++ {
+		if !arrived[g.Release][g.Order[p]] {
+			return false
+		}
+	}
+	return true
+}
+
 func allRecvdBefore(pos int) bool {
 	for p := 0; p < pos; p++ {
 		if !recvd[cfg.GateOrder[p]] {
@@ -191,6 +263,7 @@ func Recv(site string, idx int) {
 	if cfg.GateRecv == "" || cfg.GateRecv == site {
 		recvd[idx] = true
 	}
+	markArrived(site, idx)
 	logLocked("recv", site, idx)
 	cond.Broadcast()
 	mu.Unlock()
